@@ -6,7 +6,7 @@ package main
 //
 //	op:     reflect <HEX of FileDescriptorSet (generated files only)> <descriptor summary tokens…>
 //	result: nolink
-//	        | set=<ok SHAPE | err | panic> cache=[ <splitName>:<Schema class>:<NewRoot class> … ]
+//	        | linked=1 set=<ok SHAPE | err | panic> cache=[ <splitName>:<Schema class>:<NewRoot class> … ]
 //
 // ORACLE (the property as stated): SchemaSetFromFiles / SchemaCache.Schema / Reflector.NewRoot
 // return a value or an error — never panic, hang or overflow the stack; on success every
@@ -315,7 +315,9 @@ func reflectOnce(h *vh.H, op string, fds *descriptorpb.FileDescriptorSet) string
 			}
 		}
 	}
-	return "set=" + setRes + " cache=[ " + strings.Join(cres, " ") + " ]"
+	// linked=1: the set passed protodesc; the Lean side evaluates the theorems' hypothesis `linked`
+	// on the summary and must agree
+	return "linked=1 set=" + setRes + " cache=[ " + strings.Join(cres, " ") + " ]"
 }
 
 func isNilRoot(r j5schema.RootSchema) bool {
